@@ -113,12 +113,27 @@ def lean_sources():
     return sorted(res)
 
 
-def prop_theorems(pid: str):
-    path = os.path.join(LEAN, "CodeLimit", "Props", pid + ".lean")
+# further modules whose theorems belong to a property's obligations
+EXTRA_MODULES = {
+    "C14": ["CodeLimit.Props.C14b"],
+    "C01": ["CodeLimit.Lemmas.GenTie"],
+    "C05": ["CodeLimit.Lemmas.GenTie"],
+}
+
+
+def module_theorems(mod: str):
+    path = os.path.join(LEAN, *mod.split(".")) + ".lean"
     src = _strip_comments(open(path).read())
     ns = re.findall(r"^namespace\s+(\S+)", src, re.M)
     prefix = (ns[0] + ".") if ns else ""
-    return [prefix + t for t in _THM.findall(src)]
+    return [prefix + t for t in _THM.findall(src) if "." not in t or not t.startswith("_root_")]
+
+
+def prop_theorems(pid: str):
+    out = []
+    for mod in ["CodeLimit.Props." + pid] + EXTRA_MODULES.get(pid, []):
+        out += module_theorems(mod)
+    return out
 
 
 def lean_check(pid: str, thorough=False) -> LeanResult:
@@ -126,7 +141,8 @@ def lean_check(pid: str, thorough=False) -> LeanResult:
     audit axioms of every theorem declared there and grep all sources for banned constructs"""
     r = LeanResult()
     mod = "CodeLimit.Props." + pid
-    rc, log = _lake(["build", mod])
+    mods = [mod] + EXTRA_MODULES.get(pid, [])
+    rc, log = _lake(["build"] + mods)
     r.build_log = log
     try:
         r.theorems = prop_theorems(pid)
@@ -145,7 +161,8 @@ def lean_check(pid: str, thorough=False) -> LeanResult:
         r.bad.append((mod, "banned construct: " + "; ".join(r.grep_hits[:5])))
     audit = os.path.join(LEAN, ".lake", "Audit_%s.lean" % pid)
     with open(audit, "w") as f:
-        f.write("import %s\n" % mod)
+        for m_ in mods:
+            f.write("import %s\n" % m_)
         for t in r.theorems:
             f.write("#print axioms %s\n" % t)
     rc, out = _lake(["env", "lean", audit])
